@@ -81,6 +81,17 @@ def main(tier, seed):
                     prm = [rng.choice([0.5, 1.0, 1.5, 2.25, -0.5, -1.5, -2.5, 3.2]), rng.choice([0.5, 1.5, 2.0, 3.25, 0.3])]
                 rep.count('special point', str(x))
                 cases.append((name, prm, x, n, has_model))
+    # far tails of unbounded domains (closed forms rewritten "for accuracy" in a tail; sign conventions of inverse functions on the
+    # negative axis): decided against mpmath with a RELATIVE tolerance, no interval goal
+    FAR = {'arctan': [2500, -2500, 20000, -20000], 'arcsinh': [2500, -2500, -20000], 'sin': [2500.125, -2500.125], 'cos': [2500.125, -2500.125],
+           'reciprocal': [2500, -2500], 'log': [2500, 20000], 'log2': [2500], 'log10': [2500], 'sqrt': [2500, 20000], 'log1p': [2500],
+           'arccosh': [2500], 'square': [-2500], 'negative': [-2500], 'gammaln': [200.5], 'psi': [200.5], 'sinh': [-20.5], 'cosh': [-20.5]}
+    far_from = len(cases)
+    for name, pts in sorted(FAR.items()):
+        for xf in pts:
+            for n in ([0, 1, 2, 3] if tier == 'quick' else range(0, 7)):
+                rep.count('far tail', name)
+                cases.append((name, [], F(xf), n, False))
     # implementation values
     results = []
     for name, prm, x, n, has_model in cases:
@@ -102,10 +113,15 @@ def main(tier, seed):
     except Exception as e:
         raise lib.BrokenCheck('mpmath oracle failed: %r' % e)
     goals = []
-    for (name, prm, x, n, has_model), y, o in zip(cases, results, oracle):
+    for ci_, ((name, prm, x, n, has_model), y, o) in enumerate(zip(cases, results, oracle)):
         meta = dict(function=name, prm=prm, x=str(x), n=n, impl=y, mpmath=o)
         rep.case((name, json.dumps(prm), str(x), n), n >= 1, sample=meta)
         if y is None:
+            continue
+        if o is not None and ci_ >= far_from:
+            ov = float(o)
+            if not numpy.isfinite(y) or abs(y - ov) > 1e-6 * abs(ov) + 1e-300:
+                rep.violation('oracle:far:%s' % name, 'nthderiv.%s(%s, n=%d) = %r but the %d-th derivative is %s (far tail, relative comparison)' % (name, x, n, y, n, o), dict(kind='oracle', case=meta))
             continue
         if o is not None:
             ov = float(o)
@@ -125,6 +141,35 @@ def main(tier, seed):
         if not ok[k]:
             rep.violation('model:%s' % meta['function'], 'nthderiv.%s(%s, n=%d) = %r is outside the certified enclosure of the proved closed form' % (meta['function'], meta['x'], meta['n'], meta['impl']),
                           dict(kind='model', case=meta, goal=stmt))
+    # (d) call forms: fresh result, separate out= buffer, and out= aliasing the argument must agree (the argument is read, never clobbered first)
+    for name, (dom, has_model) in sorted(FUNCS.items()):
+        f = getattr(nd, name)
+        for _ in range(2 if tier == 'quick' else 10):
+            lo, hi = rng.choice(dom)
+            pts = numpy.array([float(F(rng.randint(int(lo * 8), int(hi * 8)), 8)) + 0.03125 for _ in range(3)])
+            pts = pts[(pts > float(lo)) & (pts < float(hi))]
+            if name == 'reciprocal':
+                pts = pts[pts != 0]
+            if pts.size == 0:
+                continue
+            n = rng.randint(0, nmax)
+            prm = [rng.randint(0, 3)] if name == 'polygamma' else ([rng.choice([0.5, 1.5, -0.5]), rng.choice([0.5, 1.5, 2.0])] if name == 'hyperu' else [])
+            rep.count('call form', name)
+            rep.case(('callform', name, json.dumps(prm), pts.tobytes().hex(), n), n >= 1, sample=dict(check='call forms', function=name, n=n))
+            try:
+                plain = numpy.array(f(*(list(prm) + [pts.copy()]), n=n), copy=True)
+                buf = numpy.full_like(pts, 7.0); r2 = f(*(list(prm) + [pts.copy()]), out=buf, n=n)
+                xin = pts.copy(); r3 = f(*(list(prm) + [xin]), out=xin, n=n)
+                bad = None
+                if not numpy.array_equal(plain, numpy.asarray(r2), equal_nan=True) or not numpy.array_equal(plain, buf, equal_nan=True):
+                    bad = 'out=<separate buffer>'
+                elif not numpy.array_equal(plain, numpy.asarray(r3), equal_nan=True) or not numpy.array_equal(plain, xin, equal_nan=True):
+                    bad = 'out=x (in place)'
+                if bad:
+                    rep.violation('callform:%s' % name, 'nthderiv.%s(x, n=%d) with %s differs from the plain call' % (name, n, bad),
+                                  dict(kind='callform', function=name, prm=prm, x=pts.tolist(), n=n, form=bad))
+            except Exception as e:
+                rep.notes.append('call form of %s raised %r' % (name, e))
     # (c) piecewise functions away from kinks
     for name in ['rint', 'fix', 'floor', 'ceil', 'trunc', 'sign', 'absolute', 'clip']:
         for _ in range(per):
